@@ -533,28 +533,30 @@ def minimize_subcircuits(
                 filtered_outputs_lst.append(output)
                 found_patterns[pattern] = output
 
+        for output in subcircuit.outputs:
+            if outputs_mapping.get(output) not in inputs_set:
+                # Only an output that is equal to a leaf is replaced by the leaf
+                # (not the negation of a leaf, and not an output that is equal
+                # to another output: that one is going to be replaced itself).
+                continue
+            new_output = outputs_mapping[output]
+            for user in list(circuit.get_gate_users(output)):
+                new_operands = tuple(
+                    new_output if operand == output else operand
+                    for operand in circuit.get_gate(user).operands
+                )
+                circuit.get_gate(user)._operands = new_operands
+                circuit._add_user(new_output, user)
+                circuit._remove_user(output, user)
+            circuit._outputs = [
+                new_output if x == output else x for x in circuit._outputs
+            ]
+            circuit.remove_gate(output)
+            node_states[output] = _NodeState.REMOVED
+            node_states[new_output] = _NodeState.REMOVED
+
         if not filtered_outputs:
             logger.debug("All outputs have trivial input patterns")
-            for output in subcircuit.outputs:
-                if output not in outputs_mapping:
-                    # the output is the negation of a leaf: it must not be replaced
-                    # by the leaf itself
-                    continue
-                new_output = outputs_mapping[output]
-                for user in list(circuit.get_gate_users(output)):
-                    new_operands = tuple(
-                        new_output if operand == output else operand
-                        for operand in circuit.get_gate(user).operands
-                    )
-                    circuit.get_gate(user)._operands = new_operands
-                    circuit._add_user(new_output, user)
-                    circuit._remove_user(output, user)
-                circuit._outputs = [
-                    new_output if x == output else x for x in circuit._outputs
-                ]
-                circuit.remove_gate(output)
-                node_states[output] = _NodeState.REMOVED
-                node_states[new_output] = _NodeState.REMOVED
             continue
 
         # Only the gates between the inputs and the non-trivial outputs are going to
